@@ -197,6 +197,28 @@ func lpShow(c []float64, A [][]float64, b []float64) string {
 	return s
 }
 
+const lpLoopPanic = "verif: lp.Simplex does not return"
+
+// lpCountingMatrix is a mat.Matrix that gives up after limit element reads.
+// It does not embed the Dense: with the raw-matrix methods promoted, mat would
+// read the elements without going through At.
+type lpCountingMatrix struct {
+	d            *mat.Dense
+	reads, limit int
+}
+
+func (m *lpCountingMatrix) Dims() (int, int) { return m.d.Dims() }
+
+func (m *lpCountingMatrix) At(i, j int) float64 {
+	m.reads++
+	if m.reads > m.limit {
+		panic(lpLoopPanic)
+	}
+	return m.d.At(i, j)
+}
+
+func (m *lpCountingMatrix) T() mat.Matrix { return mat.Transpose{Matrix: m} }
+
 func runLP(t *simrt.Tape, rc *RunCtx) *Violation {
 	const prop = "C19"
 	rc.declare("lp_optimal", "lp_infeasible", "lp_unbounded", "lp_rank_deficient", "lp_degenerate_vertex", "lp_numeric_failure_reported", "lp_convert_checked", "lp_square", "lp_corpus_program")
@@ -289,6 +311,7 @@ func runLP(t *simrt.Tape, rc *RunCtx) *Violation {
 	for j := range c {
 		c[j] = float64(t.Choose(simrt.KValue, 9) - 4)
 	}
+	corpusCase := -1
 	if t.Choose(simrt.KWorkload, 100) == 99 {
 		// corpus: the program on which finding 24 (Phase I panic, 6f8b956) was
 		// first seen; the generator meets its like once in 10^6 programs
@@ -296,7 +319,36 @@ func runLP(t *simrt.Tape, rc *RunCtx) *Violation {
 		A = [][]float64{{-3, -3, -2, 1, 0, 2}, {-3, -3, -3, 3, -1, 0}, {-3, -3, -3, -3, 2, 2}, {-3, -3, -3, -2, 1, -3}}
 		b = []float64{-5, -6, -12, -11}
 		c = []float64{-4, -4, -4, -4, -4, -4}
-		if t.Choose(simrt.KWorkload, 2) == 1 {
+		corpusCase = t.Choose(simrt.KWorkload, 6)
+		switch corpusCase {
+		case 2:
+			// finding 53: simplex cycles through six bases (the anti-cycling
+			// rule picks by position, not by variable index); exact optimum
+			// -95/161
+			m, n = 4, 7
+			A = [][]float64{{2, -2, -2, 0, 3, 1, 0}, {1, -3, -3, 3, 1, 4, 0}, {3, 4, -3, 4, -3, 4, 0}, {1, 1, 1, 1, 1, 1, 1}}
+			b = []float64{0, 0, 0, 1}
+			c = []float64{1, 0, 3, 1, -2, -4, 0}
+		case 3:
+			// the same, unbounded
+			m, n = 3, 7
+			A = [][]float64{{2, 0, 5, -5, -3, 0, -1}, {-1, -5, 1, 3, 2, 0, -3}, {5, -3, 1, -2, 5, 1, 5}}
+			b = []float64{0, 0, 4}
+			c = []float64{-3, -5, 1, 4, 0, -5, -4}
+		case 4:
+			// finding 54: zeros of a degenerate vertex come out of the
+			// solve as -1.0e-13 .. -1.9e-13 (square: x = (0, 0, 6, 2))
+			m, n = 4, 4
+			A = [][]float64{{-3, 3, -2, 3}, {3, 2, -3, -2}, {-1, -3, -3, -2}, {-2, 3, 0, 3}}
+			b = []float64{-6, -22, -22, 6}
+			c = []float64{-1, 2, -3, 1}
+		case 5:
+			// the same in Phase I: optimum 25, ErrLinSolve
+			m, n = 4, 5
+			A = [][]float64{{0, -4, 0, 3, -5}, {3, 5, -3, -5, -3}, {-5, 3, 2, 4, 5}, {4, 2, -2, -1, -5}}
+			b = []float64{-41, 5, 37, -17}
+			c = []float64{-2, 0, -3, -2, 5}
+		case 1:
 			// finding 49: a square program whose solution (0, 2, 2, 0) comes
 			// out of the linear solve with -1.05e-13 for a zero (thorough
 			// tier, seed 73, one program in 10^6)
@@ -324,8 +376,25 @@ func runLP(t *simrt.Tape, rc *RunCtx) *Violation {
 	var pan interface{}
 	func() {
 		defer func() { pan = recover() }()
-		optF, optX, err = lp.Simplex(append([]float64(nil), c...), ad, append([]float64(nil), b...), 1e-10, nil)
+		// (the matrix counts its element reads: a Simplex that never returns
+		// ends with a panic of the harness's own after 3*10^5 of them,
+		// thousands of times what the largest generated program needs)
+		optF, optX, err = lp.Simplex(append([]float64(nil), c...), &lpCountingMatrix{d: ad, limit: 300000}, append([]float64(nil), b...), 1e-10, nil)
 	}()
+	if s, ok := pan.(string); ok && s == lpLoopPanic {
+		// cycling needs a degenerate vertex: a hang on a program without
+		// one is something else than known finding 53
+		sig := "lp/simplex/does-not-return"
+		degenerate := ref.degenerate
+		for _, v := range b {
+			degenerate = degenerate || v == 0
+		}
+		if degenerate {
+			sig += "/degenerate-program"
+		}
+		_ = corpusCase
+		return &Violation{prop, sig, fmt.Sprintf("Simplex was still running after 3*10^5 element reads of A (a solved program of this size needs a few thousand)\n%s", rc.Instance["program"])}
+	}
 	rc.oracle("simplex-vs-exact-enumeration")
 	where := rc.Instance["program"].(string)
 	if pan != nil {
